@@ -295,7 +295,8 @@ Unlock(r) ==
 Sign(r) ==
     /\ pc[r] = "sign"
     /\ idx[r] <= N(r)
-    /\ sigs' = IF res[r][idx[r]] = "APPROVED" THEN [sigs EXCEPT ![r] = @ \cup {idx[r]}] ELSE sigs
+    \* (in the design that lets an abandoned request's locks go, the abandoned caller is answered FAILED at once: nothing is signed for it)
+    /\ sigs' = IF res[r][idx[r]] = "APPROVED" /\ ~(AbandonReleasesLocks /\ <<r, -1>> \in faulted) THEN [sigs EXCEPT ![r] = @ \cup {idx[r]}] ELSE sigs
     /\ idx' = [idx EXCEPT ![r] = idx[r] + 1]
     /\ UNCHANGED <<def, disk, mapLock, holder, pc, loc, res, nxt, released, order, faulted, crashes, faults, closed>>
 
